@@ -1,6 +1,7 @@
 import Grexv.Props.C08
 import Grexv.Props.C01
 import Grexv.Props.C03
+import Grexv.Lemmas.FoldClass
 
 /-!
 # C04 — the case-insensitive option
@@ -145,6 +146,37 @@ theorem ci_sound (cap : Bool) (env : Env) (ws : List Str) (st : Stages)
   obtain ⟨P, hP, hm⟩ := ci_default_exact cap env ws st h hseg ⟨w, hw, hne⟩ w hsc
   exact ⟨P, hP, hm.mpr ⟨lowerOne env w, List.mem_map.mpr ⟨w, hw, rfl⟩, stored_ne_nil env w hne,
     stored_matches_original env w⟩⟩
+
+/-- what a code point is converted to also stands for every member of its fold orbit: simple case folding preserves
+`\d`, `\s`, `\w` (`perlMember_fold`, a kernel-checked fact about the regex crate's tables) -/
+theorem docAtom_fold (cfg : Config) (c x : Nat) (h : Spec.chrMatches true c x = true) :
+    atomDen true (Props.C03.docAtom cfg c) x := by
+  have hinv : ∀ k, Spec.perlMember k c = Spec.perlMember k x := by
+    intro k
+    simp only [Spec.chrMatches, Bool.true_and, Bool.or_eq_true, decide_eq_true_eq, List.contains_iff_mem] at h
+    rcases h with rfl | h
+    · rfl
+    · exact perlMember_fold k x c h
+  unfold Props.C03.docAtom
+  repeat' split
+  all_goals simp_all [atomDen]
+
+theorem docAtoms_fold (cfg : Config) : ∀ (t w : Str), FoldEq t w → atomsDen true (t.map (Props.C03.docAtom cfg)) w
+  | [], w, h => by simpa [FoldEq, atomsDen] using h
+  | c :: t, w, h => by
+    obtain ⟨x, r, rfl, hx, hr⟩ := h
+    exact ⟨x, r, rfl, docAtom_fold cfg c x hx, docAtoms_fold cfg t r hr⟩
+
+/-- **C04 (every test case still matches), every subset of the class options** with the case-insensitive option and any class
+options (with or without capturing groups and `-e`, any single anchor): every non-empty original test case is matched by the
+returned pattern under `(?i)` — in whatever letter case it was given, and whatever `str::to_lowercase` returned -/
+theorem ci_sound_with_classes (cfg : Config) (hp : PlainPrintCI cfg) (hci : cfg.ci = true) (env : Env) (ws : List Str) (st : Stages)
+    (h : regExpFrom cfg env ws = .ok st) (hseg : ∀ w ∈ lowerCases env ws, SegOK env w)
+    (w : Str) (hw : w ∈ ws) (hne : w ≠ []) (hsc : ∀ c ∈ w, Scalar c) :
+    ∃ P, Spec.parse (fmtRegExp cfg st.finalAst) = some (⟨true, false⟩, P) ∧ Spec.fullMatch true P w = true := by
+  obtain ⟨P, hP, hm⟩ := ci_exact cfg hp hci env ws st h hseg ⟨w, hw, hne⟩ w hsc
+  exact ⟨P, hP, hm.mpr ⟨lowerOne env w, List.mem_map.mpr ⟨w, hw, rfl⟩, stored_ne_nil env w hne,
+    docAtoms_fold cfg _ _ (stored_matches_original env w)⟩⟩
 
 /-- the case-insensitive pattern accepts nothing of another length than a stored test case -/
 theorem ci_length (cap : Bool) (env : Env) (ws : List Str) (st : Stages)
